@@ -53,6 +53,21 @@ def mutations():
     def _(d): F_(T_(d, "A"), "sub")["ty"] = ty("[A]")
     @m("inherited_edge_list_shape_changed")
     def _(d): F_(T_(d, "A"), "sub")["ty"] = ty("Mid")
+    @m("implements_reordered_ok")
+    def _(d): T_(d, "A")["implements"] = ["Base", "Mid"]
+    @m("second_listed_interface_narrower_property")      # legal against the first-listed interface, illegal against the second
+    def _(d): T_(d, "A")["implements"] = ["Base", "Mid"]; F_(T_(d, "Mid"), "name")["ty"] = ty("String!")
+    @m("first_listed_interface_narrower_property")
+    def _(d): F_(T_(d, "Mid"), "name")["ty"] = ty("String!")
+    @m("second_listed_interface_parameter_narrowed")
+    def _(d):
+        T_(d, "A")["implements"] = ["Base", "Mid"]
+        F_(T_(d, "Base"), "link")["params"][0] = param("min", "Int!", I(0)); F_(T_(d, "B"), "link")["params"][0] = param("min", "Int!", I(0))
+        F_(T_(d, "A"), "link")["params"][0] = param("min", "Int!", I(0))         # Mid keeps the widened `min: Int`; A narrows it back
+    @m("second_listed_interface_extra_parameter")
+    def _(d):
+        d["types"].append(vtype("Other", "interface", [], [field("link", "[Base!]", [param("min", "Int", I(0)), param("tag", "String"), param("more", "Int")])]))
+        T_(d, "B")["implements"].append("Other")
     @m("drop_inherited_param")
     def _(d): F_(T_(d, "B"), "link")["params"].pop()
     @m("extra_param_on_inherited")
